@@ -36,9 +36,13 @@ enum CallerOut {
 struct Exec {
     ctl: MemCtl,
     caller: BoxFut<()>,
-    cmd: Arc<Mutex<Option<bool>>>,
+    cmd: Arc<Mutex<Option<u8>>>,
     out: Arc<Mutex<Vec<CallerOut>>>,
     caller_busy: bool,
+    /// the call that was Session::close() (it consumes the session: no call after it), and the tags of the replies
+    /// pushed for it (its reply is <ok/>, which cannot carry a tag)
+    close_abs: Option<u64>,
+    close_tags: Vec<u64>,
     futs: BTreeMap<u64, ReplyFut>,
     done: BTreeMap<u64, Value>,
     dropped: Vec<u64>,
@@ -127,18 +131,49 @@ impl Exec {
             Poll::Pending => panic!("harness: session establishment pending"),
         };
         in_runtime(|| drop(est));
-        let cmd: Arc<Mutex<Option<bool>>> = Arc::new(Mutex::new(None));
+        let cmd: Arc<Mutex<Option<u8>>> = Arc::new(Mutex::new(None));
         let out: Arc<Mutex<Vec<CallerOut>>> = Arc::new(Mutex::new(Vec::new()));
         let cancel: Arc<Mutex<bool>> = Arc::new(Mutex::new(false));
         let (cmd2, out2, cancel2) = (cmd.clone(), out.clone(), cancel.clone());
         let caller: BoxFut<()> = Box::pin(async move {
-            let mut session = session;
+            let mut session = Some(session);
             loop {
-                let good = poll_fn(|_| match cmd2.lock().unwrap().take() {
+                let what = poll_fn(|_| match cmd2.lock().unwrap().take() {
                     Some(g) => Poll::Ready(g),
                     None => Poll::Pending,
                 })
                 .await;
+                let good = what != 0;
+                if what == 2 {
+                    // Session::close(): sends <close-session> and hands back the future of its reply, which owns the session
+                    let Some(s) = session.take() else {
+                        out2.lock().unwrap().push(CallerOut::Err("nosession".into()));
+                        continue;
+                    };
+                    let mut cf = Box::pin(s.close());
+                    let r = poll_fn(|cx| {
+                        let mut c = cancel2.lock().unwrap();
+                        if *c {
+                            *c = false;
+                            return Poll::Ready(None);
+                        }
+                        drop(c);
+                        cf.as_mut().poll(cx).map(Some)
+                    })
+                    .await;
+                    drop(cf);
+                    let Some(r) = r else { continue };
+                    let o = match r {
+                        Ok(fut) => CallerOut::Fut(Box::pin(async move { fut.await.map(|()| "CLOSED".to_string()) })),
+                        Err(e) => CallerOut::Err(err_class(&e).to_string()),
+                    };
+                    out2.lock().unwrap().push(o);
+                    continue;
+                }
+                let Some(session) = session.as_mut() else {
+                    out2.lock().unwrap().push(CallerOut::Err("nosession".into()));
+                    continue;
+                };
                 let r = {
                     let rpc_fut = session.rpc::<Get, _>(move |b| {
                         if good {
@@ -177,6 +212,8 @@ impl Exec {
             cmd,
             out,
             caller_busy: false,
+            close_abs: None,
+            close_tags: Vec::new(),
             futs: BTreeMap::new(),
             done: BTreeMap::new(),
             dropped: Vec::new(),
@@ -225,6 +262,11 @@ impl Exec {
     }
 
     fn reply_xml(&mut self, id: u64, tag: u64) -> String {
+        if self.close_abs == Some(id) {
+            self.close_tags.push(tag);
+            let id = self.real_id(id);
+            return format!("<rpc-reply message-id=\"{id}\" xmlns=\"{BASE_NS}\"><ok/></rpc-reply>{EOM}");
+        }
         let id = self.real_id(id);
         format!(
             "<rpc-reply message-id=\"{id}\" xmlns=\"{BASE_NS}\"><data>T{tag}</data></rpc-reply>{EOM}"
@@ -249,6 +291,7 @@ impl Exec {
                 self.futs.remove(&t);
                 let v = match r {
                     Ok(s) => {
+                        let s = if s == "CLOSED" { format!("T{}", self.close_tags.first().copied().unwrap_or(0)) } else { s };
                         let tag: u64 = s.trim_start_matches('T').parse().unwrap_or(0);
                         json!({"state": "ok", "tag": tag, "raw": s})
                     }
@@ -271,7 +314,12 @@ impl Exec {
                     ev["skipped"] = json!(true);
                 } else {
                     self.calls += 1;
-                    *self.cmd.lock().unwrap() = Some(good);
+                    let close = c["close"].as_bool().unwrap_or(false);
+                    if close {
+                        self.close_abs = Some(self.calls);
+                        ev["close"] = json!(true);
+                    }
+                    *self.cmd.lock().unwrap() = Some(if close { 2 } else if good { 1 } else { 0 });
                     self.caller_busy = true;
                     ev["res"] = self.poll_caller();
                 }
@@ -533,6 +581,8 @@ fn random_case(
     let mut answered: Vec<u64> = Vec::new();
     let mut ndrops = 0;
     let mut closed = false;
+    // every third script may end its calls with Session::close()
+    let with_close = rng.gen_range(0..3) == 0;
     let sent_ids = |ex: &mut Exec| -> Vec<u64> { ex.sent_ids() };
     let mut step = |ex: &mut Exec, c: Value, cmds: &mut Vec<Value>, emit: &mut dyn FnMut(Value)| {
         if c["c"] == "quiesce" {
@@ -546,9 +596,15 @@ fn random_case(
     for _ in 0..len {
         let k = rng.gen_range(0..100);
         let live: Vec<u64> = ex.futs.keys().copied().collect();
-        let c = if k < 18 && ex.calls < nmax && !ex.caller_busy {
+        let c = if k < 18 && ex.calls < nmax && !ex.caller_busy && ex.close_abs.is_none() {
             let good = !faults || rng.gen_range(0..8) != 0;
-            Some(json!({"c": "rpc", "good": good}))
+            // now and then the call is Session::close(): one more request in the pipeline, whose reply future owns the
+            // session (dropping it is dropping a reply future like any other)
+            if good && with_close && ex.calls >= 1 && rng.gen_range(0..4) == 0 {
+                Some(json!({"c": "rpc", "good": true, "close": true}))
+            } else {
+                Some(json!({"c": "rpc", "good": good}))
+            }
         } else if k < 26 && ex.caller_busy {
             Some(json!({"c": "pollc"}))
         } else if k < 56 && !live.is_empty() {
@@ -620,7 +676,7 @@ fn random_case(
         }
     }
     step(ex, json!({"c": "quiesce"}), &mut cmds, emit);
-    if !closed {
+    if !closed && ex.close_abs.is_none() {
         // the session must still be usable for a new request (C18)
         let before = sent_ids(ex).len();
         step(ex, json!({"c": "rpc", "good": true}), &mut cmds, emit);
